@@ -64,6 +64,7 @@ type Node struct {
 	cl        *Cluster
 	up        bool
 	mx        sync.Mutex
+	CloseHung bool // a clean stop did not finish within StopTimeout
 	// process mode
 	proc   bool
 	cmd    *exec.Cmd
@@ -230,9 +231,22 @@ func (n *Node) Stop() {
 		n.stopProc()
 		return
 	}
-	n.S.Close()
+	// Server.Close can block forever when a goroutine of the database never ends (e.g. a wedged follow
+	// pipeline); the monitor must get its verdict out, so the wait is bounded and the node is abandoned
+	// (the worker process is recycled anyway)
+	done := make(chan struct{})
+	go func(s *server.Server) { s.Close(); close(done) }(n.S)
+	select {
+	case <-done:
+	case <-time.After(StopTimeout):
+		n.CloseHung = true
+		fmt.Fprintf(os.Stderr, "VERIF-CLOSE-HUNG %s %d.%d\n", n.Role, n.Partition, n.ID)
+	}
 	n.up = false
 }
+
+// StopTimeout bounds the wait for a clean stop of an in-process node.
+var StopTimeout = 45 * time.Second
 
 func (n *Node) Up() bool {
 	n.mx.Lock()
